@@ -155,8 +155,27 @@ pub fn c07(tier: Tier, replay: Option<String>) -> i32 {
     );
     let p = Profile { max_ops: 30, txn: 6, dml: 10, truncate: 0, ..Profile::default() };
     let pb = Profile { max_ops: 60, txn: 6, dml: 12, truncate: 0, big_keys: true, max_insert_rows: 12, ..Profile::default() };
+    // third profile: tables without any key or index, savepoint-heavy, so that ROLLBACK TO followed by more
+    // writes and another rollback is common; pt/pp generate whole transactions as units on pre-loaded tables
+    let pp = Profile {
+        max_ops: 40, txn: 12, dml: 10, truncate: 0, allow_pk: false, allow_text_pk: false, allow_unique: false, allow_indexes: false, allow_long: false,
+        allow_auto_inc: false, allow_fk: false, txn_blocks: true, prefill: true, ..Profile::default()
+    };
+    let pt = Profile { txn_blocks: true, prefill: true, max_ops: 40, ..p.clone() };
     let cases = tier.pick(3000, 120_000);
-    drive_hist(&ctx, &check, move || case_strategy(p.clone(), Some(pb.clone()), true), cases)
+    drive_hist(
+        &ctx,
+        &check,
+        move || {
+            prop_oneof![
+                2 => case_strategy(p.clone(), Some(pb.clone()), true),
+                1 => case_strategy(pt.clone(), None, true),
+                2 => case_strategy(pp.clone(), None, true),
+            ]
+            .boxed()
+        },
+        cases,
+    )
 }
 
 // ----------------------------------------------------------------------------------------- C04
